@@ -1706,6 +1706,8 @@ class Interp:
                 st_ = self.client.on_store(self, key, v_, node, st_)
                 st_ = st_.set(("H", key), v_)
             return [(NONE, st_)]
+        elif cv == ("ext", "typing.cast") and len(args) == 2 and not kwargs:
+            return [(args[1], st)]  # typing.cast(T, x) is x
         elif cv == ("ext", "operator.setitem") and len(args) == 3 and not kwargs:
             key = ("sub", args[0], args[1])
             st_ = self.client.on_store(self, key, args[2], node, st)
